@@ -1,22 +1,27 @@
 PROP = {'id': 'C13',
  'level': 'proof',
- 'functions': ['_update_with_blocking_jobs', 'Cluster.prepare_for_resubmission'],
+ 'functions': ['_update_with_blocking_jobs', 'Cluster.prepare_for_resubmission', 'resubmit_jobs'],
  'native': ['_update_with_blocking_jobs', 'Cluster.prepare_for_resubmission'],
  'lemmas': ['lemma_count_in', 'lemma_fold_schemas'],
  'records': ['Cluster', 'ClusterConfig', 'JobStatus', 'Job', 'JobConfiguration'],
- 'min_obligations': 80,
+ 'min_obligations': 300,
  'assumptions': ['create_config_from_file returns the configuration that passed check_job_dependencies at submission time (every blocker is a configured job; '
                  'C17)',
                  'the jobs the submitter then runs are exactly the NOT_SUBMITTED ones, each once and after its remaining blockers (C01, C02): composed, not '
                  're-proved here',
                  'finite-set primitives (|A+{x}| = |A| + [x not in A], inclusion-exclusion, subset => <=) are trusted; the counting schema is proved in '
                  'lemma_count_in'],
- 'not_decided': ['_get_jobs_to_resubmit (flag selection over ResultsSummary: a list mixing Result and Job objects, outside the typed subset) - not yet under '
-                 'contract',
-                 'ResultsAggregator.clear_results_for_resubmission (result pruning through the csv module) - boundary, not yet under contract',
-                 'the resubmit_jobs callback itself (refusal path, ordering of pruning / reset / submission, try/finally demotion; fixed findings F4, F5) - '
-                 'not yet under contract'],
+ 'not_decided': ['_get_jobs_to_resubmit (flag selection over ResultsSummary: a list mixing Result and Job objects, outside the typed subset): ASSUMED in the '
+                 'proof of the callback (result is a set of configured names), its selection by flags is not decided',
+                 'ResultsAggregator.clear_results_for_resubmission (result pruning through the csv module): assumed boundary contract of _reset_results '
+                 '(exactly the rows of the set are removed)',
+                 'replacing submission groups from a file (--submission-groups-file): the new group objects are unconstrained in the proof '
+                 '(SubmissionGroup(**mapping))'],
  'explanation': "_update_with_blocking_jobs: the set only grows, ends closed under 'has a blocker in the set' and sound (every added job has a blocker in the "
                 "set), the returned map is exactly blockers-restricted-to-rerun-jobs, and JADE's own iteration-bound assertion cannot fail (cardinality "
                 'argument). prepare_for_resubmission: exactly the selected jobs are reset to NOT_SUBMITTED with those blockers, every other job keeps state '
-                'and blockers, flags and counters are reset consistently (counters: when every unselected job ran - otherwise finding F8).'}
+                'and blockers, flags and counters are reset consistently (counters: when every unselected job ran - otherwise finding F8). The resubmit_jobs '
+                'callback is under contract: on an incomplete submission it exits 1 with jobs, results and counters untouched and gives the role back iff it '
+                'took it (F4); otherwise the closure is computed before the results are pruned - the pruned set IS the set that is reset -, pruning happens '
+                'exactly once, every precondition of prepare_for_resubmission and submit_jobs is established, a missing events directory is tolerated (F5) and '
+                'the role is given back before every exit.'}
